@@ -170,8 +170,27 @@ pub fn env_str_async(r: &Req) -> String {
     items.sort();
     items.join(",")
 }
+/// The accessor API against the iterator: `acc=ok` iff env_len / contains_var / get_var / get_var_str agree with env_iter for
+/// every entry — looked up by the stored spelling and by the lower-cased one — and an absent name is reported absent.
+pub fn acc_digest(r: &parser::Request) -> String {
+    use fastcgi_server::cgi::VarName;
+    let items: Vec<(String, Vec<u8>)> = r.env_iter().map(|(k, v)| (k.as_ref().to_string(), v.to_vec())).collect();
+    if r.env_len() != items.len() { return format!("bad:env_len={}!={}", r.env_len(), items.len()); }
+    if r.env_iter().len() != items.len() { return "bad:iter-len".into(); }
+    for (k, v) in &items {
+        for name in [k.clone(), k.to_ascii_lowercase()] {
+            let vn = VarName::new(&name);
+            if !r.contains_var(vn) { return format!("bad:contains_var({})", hexd(name.as_bytes())); }
+            if r.get_var(vn) != Some(&v[..]) { return format!("bad:get_var({})", hexd(name.as_bytes())); }
+            if r.get_var_str(vn) != std::str::from_utf8(v).ok() { return format!("bad:get_var_str({})", hexd(name.as_bytes())); }
+        }
+    }
+    let absent = "X_VERIF_ABSENT_\u{e9}";
+    if !items.iter().any(|(k, _)| k.eq_ignore_ascii_case(absent)) { let vn = VarName::new(absent); if r.contains_var(vn) || r.get_var(vn).is_some() || r.get_var_str(vn).is_some() { return "bad:absent-name-found".into(); } }
+    "ok".into()
+}
 pub fn req_str(r: &parser::Request) -> String {
-    format!("id={} role={} flags={} env={}", r.request_id, u16::from(r.role), u8::from(r.flags), env_str(r))
+    format!("id={} role={} flags={} env={} acc={}", r.request_id, u16::from(r.role), u8::from(r.flags), env_str(r), acc_digest(r))
 }
 fn into_request_str(p: request::Parser<'static>) -> String {
     match p.into_request() { Ok((r, left)) => format!("ok {} left={}", req_str(&r), hexd(&left)), Err(e) => format!("err {}", perr(&e)) }
@@ -235,6 +254,19 @@ impl Impl {
                 let Cur::Req(p) = std::mem::take(&mut self.cur) else { return Some("no-parser".into()) };
                 match p.into_stream_parser() {
                     Ok(mut sp) => { let o = format!("ok {} {}", req_str(&sp.request), str_state(&mut sp)); self.cur = Cur::Str(sp); o }
+                    Err(e) => format!("err {}", perr(&e)),
+                }
+            }
+            ["req.to_stream_new", b, mc] => {
+                // the public constructor stream::Parser::new(config, request) on the request extracted by into_request()
+                let Cur::Req(p) = std::mem::take(&mut self.cur) else { return Some("no-parser".into()) };
+                match p.into_request() {
+                    Ok((r, left)) => {
+                        let cfg: &'static Config = Box::leak(Box::new(config(b.parse().ok()?, mc.parse().ok()?)));
+                        let mut sp = stream::Parser::new(cfg, r);
+                        let o = format!("ok {} {} left={}", req_str(&sp.request), str_state(&mut sp), hexd(&left));
+                        self.cur = Cur::Str(sp); o
+                    }
                     Err(e) => format!("err {}", perr(&e)),
                 }
             }
